@@ -231,7 +231,12 @@ def p_np(_=None):
         b = a @ a + 1
         c = mpc.np_less(a, b)
         d = mpc.np_sum(a * a, axis=0)
-        return (await mpc.output(b)).tolist(), (await mpc.output(c)).tolist(), (await mpc.output(d)).tolist()
+        v = mpc.input(secint.array(np.array([1, 2, 3, 4, 5])), senders=0)
+        k = mpc.input(secint(2), senders=m - 1 if (m := len(mpc.parties)) else 0)
+        e = mpc.np_roll(v, k)                    # secret shift: convolution with a secret unit vector + resharing
+        g = e * e
+        return ((await mpc.output(b)).tolist(), (await mpc.output(c)).tolist(), (await mpc.output(d)).tolist(),
+                (await mpc.output(e)).tolist(), (await mpc.output(g)).tolist())
     return prog
 
 
